@@ -90,20 +90,76 @@ def exact_env(env):
 
 
 def _frac_consts(e):
-    """the tree with every int constant as a Fraction (so that int / int stays exact)"""
+    """(tree, bindings): the tree with every int constant replaced by a fresh variable bound to the
+    Fraction of that value (so that int / int inside a composite leaf stays exact; the reference
+    interpreter pyeval takes numbers only from the environment or as int / float literals)"""
     from pymbolic.mapper import IdentityMapper
+    extra = {}
 
     class M(IdentityMapper):
         def map_constant(self, expr, *a, **k):
-            return Fraction(expr) if isinstance(expr, int) and not isinstance(expr, bool) else expr
+            if isinstance(expr, int) and not isinstance(expr, bool):
+                n = f"__k{len(extra)}"
+                extra[n] = Fraction(expr)
+                return p.Variable(n)
+            return expr
     try:
-        return M()(e)
+        return M()(e), extra
     except Exception:
-        return e
+        return e, {}
+
+
+def _iroot(n, q):
+    """the exact integer q-th root of n >= 0, or None if n is not a perfect q-th power"""
+    if n < 2:
+        return n
+    lo, hi = 1, 1 << (n.bit_length() // q + 1)
+    while lo < hi:
+        mid = (lo + hi) // 2
+        if mid ** q < n:
+            lo = mid + 1
+        else:
+            hi = mid
+    return lo if lo ** q == n else None
+
+
+def exact_pow(a, b):
+    """a ** b in exact rationals wherever the true value IS rational.  Python rounds
+    Fraction ** Fraction through floats as soon as the exponent is not an integer ((9/4) ** (1/2) is
+    the float 1.5); mathematically a non-negative rational whose numerator and denominator are
+    perfect q-th powers has the exact rational power r ** p for the exponent p/q.  Everything else
+    (irrational or complex results, huge denominators of the exponent) is left to Python and stays
+    inexact, i.e. without a verdict."""
+    if (isinstance(a, (int, Fraction)) and not isinstance(a, bool) and isinstance(b, Fraction)
+            and b.denominator != 1 and b.denominator <= 64 and a >= 0):
+        a = Fraction(a)
+        rn, rd = _iroot(a.numerator, b.denominator), _iroot(a.denominator, b.denominator)
+        if rn is not None and rd is not None:
+            return Fraction(rn, rd) ** b.numerator        # integer exponent: exact (0 ** -k raises)
+    return a ** b
+
+
+def _intlike(f):
+    """the integer operators of the exact computation: integers travel as Fractions there, the
+    shifts and bitwise operators need them back as ints (only reached where the plain computation
+    had a value, i.e. where the operands were ints)"""
+    def as_int(v):
+        return int(v) if isinstance(v, Fraction) and v.denominator == 1 else v
+
+    def g(*args):
+        r = f(*[as_int(a) for a in args])
+        return Fraction(r) if isinstance(r, int) and not isinstance(r, bool) else r
+    return g
+
+
+EXACT_BINOPS = {**BINOPS, "pow": exact_pow,
+                **{o: _intlike(BINOPS[o]) for o in ("lshift", "rshift", "and", "or", "xor")}}
+EXACT_UNOPS = {**UNOPS, "invert": _intlike(op.invert)}
 
 
 def prog_plain(pr, env, exact=False):
-    """the same program on plain numbers (`exact`: integers travel as Fractions)"""
+    """the same program on plain numbers (`exact`: integers travel as Fractions, and powers with a
+    rational exponent are exact wherever the true value is rational)"""
     if pr[0] == "leaf":
         if pr[1].startswith("(FracLeaf"):
             _h, n, d = pr[1].strip("()").split()
@@ -112,12 +168,16 @@ def prog_plain(pr, env, exact=False):
             raise ValueError("float inside a composite leaf")
         e = sx_to_expr(loads(pr[1]))
         if exact:
-            e = _frac_consts(e) if isinstance(e, p.Expression) else (
-                Fraction(e) if isinstance(e, int) and not isinstance(e, bool) else e)
+            if isinstance(e, p.Expression):
+                e, extra = _frac_consts(e)
+                env = {**env, **extra}
+            elif isinstance(e, int) and not isinstance(e, bool):
+                return Fraction(e)
         return pyeval(e, env)
     if pr[0] == "bin":
-        return BINOPS[pr[1]](prog_plain(pr[2], env, exact), prog_plain(pr[3], env, exact))
-    return UNOPS[pr[1]](prog_plain(pr[2], env, exact))
+        return (EXACT_BINOPS if exact else BINOPS)[pr[1]](prog_plain(pr[2], env, exact),
+                                                          prog_plain(pr[3], env, exact))
+    return (EXACT_UNOPS if exact else UNOPS)[pr[1]](prog_plain(pr[2], env, exact))
 
 
 def may_round(pr):
@@ -184,9 +244,29 @@ def classify(pr):
     return "leaf"
 
 
-def value_oracle(pr):
+_PASSED: dict = {"value": set(), "order": set()}
+
+
+def _memo_key(which, pr):
+    """sub-programs are shared by many programs of the exhaustive families: one that has passed
+    (the oracles are pure functions of the program) is not judged again"""
+    import json
+    if len(_PASSED[which]) > 200000:
+        _PASSED[which].clear()
+    return json.dumps(pr)
+
+
+def value_oracle(pr, top=True):
     """evaluate(tree) == the same lambda on numbers, in every env where the latter is defined."""
     from pymbolic.mapper.evaluator import EvaluationMapper
+    if not top:
+        mk = _memo_key("value", pr)
+        if mk in _PASSED["value"]:
+            return None
+        f = value_oracle(pr)
+        if f is None:
+            _PASSED["value"].add(mk)
+        return f
     try:
         tree = prog_build(pr)
     except Exception:
@@ -195,7 +275,7 @@ def value_oracle(pr):
         return None
     # blame the innermost failing sub-program, so that keys are stable under nesting
     for sub in pr[2:] if pr[0] in ("bin", "un") else []:
-        f = value_oracle(sub)
+        f = value_oracle(sub, top=False)
         if f is not None:
             return f
     for env in envs():
@@ -256,12 +336,20 @@ def nc_envs():
            "t": (5, 7), "f": (lambda a: a * 2 + 1)}
 
 
-def order_oracle(pr):
+def order_oracle(pr, top=True):
     """"never reorder non-commuting operands": the tree and the plain computation agree in a value
     domain where `*` does not commute (no verdict where the plain computation has no value there:
     divisions by non-numbers, remainders, shifts, … raise TypeError)."""
     from pymbolic.mapper.evaluator import EvaluationMapper
     from ..oracles.ncpoly import NCPoly, NCTooBig
+    if not top:
+        mk = _memo_key("order", pr)
+        if mk in _PASSED["order"]:
+            return None
+        f = order_oracle(pr)
+        if f is None:
+            _PASSED["order"].add(mk)
+        return f
     try:
         tree = prog_build(pr)
     except Exception:
@@ -269,7 +357,7 @@ def order_oracle(pr):
     if not has_node(pr) or has_float_leaf(pr):
         return None
     for sub in pr[2:] if pr[0] in ("bin", "un") else []:
-        f = order_oracle(sub)
+        f = order_oracle(sub, top=False)
         if f is not None:
             return f
     for env in nc_envs():
@@ -286,8 +374,20 @@ def order_oracle(pr):
             continue
         except Exception as ex:
             got, ok = ex, False
+        if (not ok and isinstance(got, (int, float)) and set(want.terms) <= {()}
+                and close(want.terms.get((), 0), got)):
+            # the tree has lost its generators through an absorbing element (x * 0 dropped) and
+            # divides number by number: a float; the plain value is the same CONSTANT polynomial
+            continue
+        if not ok and "(Flt" in dumps(expr_to_sx(tree)):
+            # a float made at construction time (int / int of two constant sub-programs): the free
+            # algebra is over the rationals, a float has no value there - no verdict
+            return None
         if not ok:
-            return Failure("reorders:" + classify(pr),
+            k = classify(pr)
+            # one of the value-changing folds at the root (0 ** e -> 0 …) is that fold, exhibited
+            # in this domain too, not a reordering
+            return Failure(k if k in ("floordiv-by-one", "mod-by-one", "zero-pow") else "reorders:" + k,
                            f"tree {tree!r} evaluates to {got!r} over non-commuting x, y, z, w; the "
                            f"plain computation gives {want!r}", pr)
     return None
@@ -407,6 +507,143 @@ class NonCommutative(ProgStream):
             return ["bin", rng.choice(["mul", "mul", "mul", "add", "sub"]), gen(d - 1), gen(d - 1)]
         for _ in range(600 if tier == "quick" else 20000):
             yield gen(rng.randint(2, 5))
+
+
+def _leaf(v):
+    return ["leaf", dumps(expr_to_sx(v))]
+
+
+class NeutralLooking(ProgStream):
+    """Operands BUILT IN TWO STEPS out of pieces the neutral-/absorbing-element tests look at:
+    `(a op1 b)` for EVERY operator and every pair from a pool of variables, 0, 1 and nodes that
+    are zero- or one-looking by their structure (0 // x, 0 % x, a quotient with numerator 0, a
+    product with a factor 0, the empty sum / product), then used as the left or the right operand of
+    a second operator (always as an addend and as a factor, plus random other contexts; every
+    context in the thorough tier), and random deeper programs over the same pool.  The shortcuts
+    decide by `bool(node)`; the environments decide by value (x, y range over a box that contains
+    0, so `0 ** 0`, `0 // x`, `x * 0` … all occur)."""
+    name = "opprog-neutral-looking"
+
+    @staticmethod
+    def pool(tier):
+        small = [x, y, 0, 1, p.FloorDiv(0, x), p.Quotient(0, y), p.Product((x, 0)), p.Sum(())]
+        if tier == "quick":
+            return small
+        return small + [p.Remainder(0, x), p.Sum((0,)), p.Product(()), p.Sum((y,)), p.Power(x, 0),
+                        2, -1, z]
+
+    @staticmethod
+    def contexts():
+        outer = [z, 5, p.Sum((z, 1)), 1, 0]
+        return [(o, side, _leaf(c)) for o in BINOPS for side in ("l", "r") for c in outer]
+
+    @staticmethod
+    def wrap(inner, ctx):
+        o, side, c = ctx
+        return ["bin", o, inner, c] if side == "l" else ["bin", o, c, inner]
+
+    def cases(self, rng, tier):
+        pool = [_leaf(v) for v in self.pool(tier)]
+        ctxs = self.contexts()
+        always = [("add", "l", _leaf(z)), ("mul", "r", _leaf(z))]
+        for o1 in BINOPS:
+            for a, b in itertools.product(pool, pool):
+                inner = ["bin", o1, a, b]
+                try:
+                    if not isinstance(prog_build(inner), p.Expression):
+                        continue          # folded to a number (or no tree): a one-step case
+                except Exception:
+                    continue
+                for ctx in always + rng.sample(ctxs, 2 if tier == "quick" else 14):
+                    yield self.wrap(inner, ctx)
+        for o1 in UNOPS:
+            for a in pool:
+                for ctx in always + rng.sample(ctxs, 2 if tier == "quick" else 14):
+                    yield self.wrap(["un", o1, a], ctx)
+
+        def gen(d):
+            if d == 0 or rng.random() < 0.2:
+                return rng.choice(pool)
+            if rng.random() < 0.1:
+                return ["un", rng.choice(list(UNOPS)), gen(d - 1)]
+            return ["bin", rng.choice(list(BINOPS)), gen(d - 1), gen(d - 1)]
+        for _ in range(400 if tier == "quick" else 20000):
+            yield self.wrap(gen(rng.randint(2, 3)), rng.choice(ctxs))
+
+
+class PowerLaws(ProgStream):
+    """Programs on which the (in general FALSE) power laws would act if a construction-time
+    shortcut applied one: towers `(b ** m) ** n`, products and quotients of powers of one base
+    `(b ** m) * (b ** n)`, powers of products / quotients / negations `(b1 * b2) ** n`, powers with
+    a constant base `(c ** b) ** n`, `c ** b1 * c ** b2` - over operator-built bases, with the
+    exponents ranging over negative, zero, positive integers AND non-integer floats (0.5, 0.25,
+    1.5, -0.5: where `(b ** 2) ** 0.5` is |b|, not b), bare and inside a further operator.  The
+    environments contain negative, zero and fractional values of the bases; with a float exponent
+    the verdict is taken in exact rationals (`exact_pow`: perfect roots are exact)."""
+    name = "opprog-powers"
+
+    INT_EXP = [-2, -1, 0, 1, 2, 3, 4]
+    FLT_EXP = [0.5, 0.25, 1.5, -0.5, 2.0, 1.0, 0.0, 3.0]
+
+    @staticmethod
+    def bases():
+        X, Y = _leaf(x), _leaf(y)
+        return [X, Y, ["bin", "add", X, Y], ["bin", "mul", X, Y], ["bin", "sub", X, Y],
+                ["un", "neg", X], ["bin", "mul", _leaf(2), X], ["bin", "truediv", X, Y],
+                ["bin", "add", X, _leaf(1)], ["bin", "pow", X, _leaf(2)]]
+
+    def cases(self, rng, tier):
+        quick = tier == "quick"
+        bases = self.bases()
+        exps = [_leaf(e) for e in self.INT_EXP + self.FLT_EXP]
+        simple = bases[:2] + bases[5:7] + [_leaf(2), _leaf(-1), _leaf(-2)]
+        consts = [_leaf(c) for c in (2, -1, -2, 3, 0.5, 4)]
+        P = lambda a, b: ["bin", "pow", a, b]  # noqa: E731
+
+        def family():
+            for m, n in itertools.product(exps, exps):
+                for b in ([rng.choice(bases)] if quick else bases):
+                    yield P(P(b, m), n)                                   # tower
+                b = rng.choice(bases)
+                for o in ("mul", "truediv"):
+                    yield ["bin", o, P(b, m), P(b, n)]                    # same base
+            for m in exps:
+                for b in (rng.sample(bases, 5) if quick else bases):
+                    for o in ("mul", "truediv"):
+                        yield ["bin", o, P(b, m), b]
+                        yield ["bin", o, b, P(b, m)]
+                    yield P(["un", "neg", b], m)
+                    yield ["un", "neg", P(b, m)]
+                for b1, b2 in itertools.product(simple, simple):
+                    if quick and rng.random() < 0.75:
+                        continue
+                    for o in ("mul", "truediv"):
+                        yield P(["bin", o, b1, b2], m)                    # power of a product
+                        yield ["bin", o, P(b1, m), P(b2, m)]
+                for c in consts:
+                    b = rng.choice(bases[:7])
+                    yield P(P(c, b), m)                                   # constant base
+                    yield P(c, ["bin", "mul", b, m])
+                    yield P(P(b, bases[1]), m)                            # symbolic inner exponent
+                    yield P(P(b, m), bases[1])
+            for c in consts:
+                for b1, b2 in itertools.product(bases[:5], bases[:5]):
+                    if quick and rng.random() < 0.6:
+                        continue
+                    for o in ("mul", "truediv"):
+                        yield ["bin", o, P(c, b1), P(c, b2)]
+                    yield P(c, ["bin", "add", b1, b2])
+
+        wraps = [lambda q: ["bin", "add", q, _leaf(1)], lambda q: ["bin", "mul", _leaf(2), q],
+                 lambda q: ["bin", "mul", q, _leaf(y)], lambda q: ["un", "neg", q],
+                 lambda q: ["bin", "sub", _leaf(x), q], lambda q: ["bin", "truediv", _leaf(1), q],
+                 lambda q: ["bin", "pow", q, _leaf(2)], lambda q: ["bin", "pow", q, _leaf(0.5)]]
+        for q in family():
+            if not has_node(q):
+                continue                  # constants only: plain Python, nothing is built
+            yield q
+            if not quick or rng.random() < 0.25:
+                yield rng.choice(wraps)(q)
 
 
 class Helpers(Stream):
@@ -533,7 +770,8 @@ def probes():
     a, b, c = (p.Variable(n) for n in "abc")
     t = p.flattened_product((x, p.Product((a, b)), c))
     res.append(("flatprod-reorders", t != p.Product((x, a, b, c)),
-                f"flattened_product((x, a*b, c)) -> {t!r}: the spliced factors are moved behind c"))
+                f"flattened_product((x, a*b, c)) -> {t!r}; in order it is x*a*b*c (repaired: the spliced "
+                f"factors keep their place; fails again if they are moved behind c)"))
     return res
 
 
@@ -560,7 +798,8 @@ PROP = Prop(
     lean_targets=["PV.Properties.C03", "PV.Properties.C03Syntax"],
     theorems=[],
     extractors=[extract, extract_syntax],
-    streams=[ExhaustiveOps(), RandomProgs(), NonCommutative(), Helpers(), OrderComparisons(),
+    streams=[ExhaustiveOps(), RandomProgs(), NonCommutative(), NeutralLooking(), PowerLaws(),
+             Helpers(), OrderComparisons(),
              ExhaustiveSyntax(), RandomSyntax()],
     probes=[probes, syntax_probes],
     trusted_base=[
@@ -579,7 +818,7 @@ PROP = Prop(
         "environments that tell index / argument / attribute spellings apart",
     ],
     assumptions=["numpy scalars and registered constant classes are not modelled"],
-    level_text='Lean theorems for every overloaded operator (unbounded over operands and operator programs): the tree built by Python-style dispatch evaluates, wherever the plain computation on numbers is defined with an exact value, to a value == the plain one; over an arbitrary non-commutative ring the built tree equals the plain computation (no reordering). Three folds (x//1, x%1, 0**x) are proved false with concrete witnesses and kept as known findings. The hand-written operator model is proved (ops_eq_table_current, un_eq_table_current, truthy/preds/flatten/build_eq_table_current, for all operands) to be a generic decision-tree interpreter run on the table of every operator dunder of Expression/Sum/Product, the __bool__ of every node class, the operand predicates, quotient and the flatteners that extract/operators.py regenerates from the live source on every run; in addition it is tied to the code by the exhaustive (operator x left kind x right kind) table, invalid operands on either side, and random operator programs. The non-arithmetic syntax (subscript with every index shape, call with positional/keyword/mixed/empty arguments, attribute access in both spellings, not_/and_/or_, eq..gt, abs) has its own regenerated table (getitem/call/attr/attr_a/logical/cmp/abs_eq_table_current, syntax_impl_eq_table_current), per-construct soundness theorems against den (getitem_sound_partial, call_sound, attr_sound, not/and/or/cmp/abs_sound; x[()] -> x is excluded, witnessed and kept as a known finding) and two streams (exhaustive-small over index shapes x aggregates x contexts, random typed programs) that compare the built tree with the table-driven model and its value with the same program run on plain values in environments whose aggregates distinguish the index / argument / attribute spellings.',
+    level_text='Lean theorems for every overloaded operator (unbounded over operands and operator programs): the tree built by Python-style dispatch evaluates, wherever the plain computation on numbers is defined with an exact value, to a value == the plain one; over an arbitrary non-commutative ring the built tree equals the plain computation (no reordering). Three folds (x//1, x%1, 0**x) are proved false with concrete witnesses and kept as known findings. The hand-written operator model is proved (ops_eq_table_current, un_eq_table_current, truthy/preds/flatten/build_eq_table_current, for all operands) to be a generic decision-tree interpreter run on the table of every operator dunder of Expression/Sum/Product, the __bool__ of every node class, the operand predicates, quotient and the flatteners that extract/operators.py regenerates from the live source on every run; in addition it is tied to the code by the exhaustive (operator x left kind x right kind) table, invalid operands on either side, random operator programs, two-step operands built from zero-/one-looking pieces in every operator context (opprog-neutral-looking: what bool(node) takes for zero must be zero in every environment, 0 ** 0 included), power-law shaped programs with negative / zero / non-integer float exponents over negative, zero and fractional bases (opprog-powers; float exponents judged in exact rationals, perfect roots exact) and products decided in a free non-commutative algebra (opprog-noncommutative). The non-arithmetic syntax (subscript with every index shape, call with positional/keyword/mixed/empty arguments, attribute access in both spellings, not_/and_/or_, eq..gt, abs) has its own regenerated table (getitem/call/attr/attr_a/logical/cmp/abs_eq_table_current, syntax_impl_eq_table_current), per-construct soundness theorems against den (getitem_sound_partial, call_sound, attr_sound, not/and/or/cmp/abs_sound; x[()] -> x is excluded, witnessed and kept as a known finding) and two streams (exhaustive-small over index shapes x aggregates x contexts, random typed programs) that compare the built tree with the table-driven model and its value with the same program run on plain values in environments whose aggregates distinguish the index / argument / attribute spellings. The flattening helpers keep the order of the terms (flattenedProduct_no_reorder: the value of flattened_product(terms) is the ORDERED product of the terms in any, possibly non-commutative, ring; flattenedProduct_in_order / flattenedSum_in_order: the result lists exactly the in-order non-neutral terms) - true since repo fix 64927f1, found by the order oracle that decides every operator program and every flattener call in a free algebra (harness/oracles/ncpoly.py).',
     level_note='Trusted: Lean kernel; PyNum; the model of CPython binary-operator dispatch (validated exhaustively). Side conditions of the theorems are explicit Bool predicates (exact result for true division / constant-base power; integer-valued left operand for the //1 and %1 folds). numpy scalars and registered constant classes are not modelled. Also trusted: the ast reader extract/operators.py (unknown shapes are errors) and the reading of a table given by opByTable; CPython dispatch order and bool()/x-1 of float constants are hand-written and tied by correspondence only.',
     technique='Lean 4 per-operator soundness lemmas + program induction + ring-evaluation theorem; dunder decision trees regenerated from source (T-gen) and proved equal to the model; exhaustive differential correspondence of the dunder-method model',
     design_ref="DESIGN.md §4 C03",
